@@ -89,7 +89,19 @@ type GhostField struct {
 	PkgPath string
 }
 
+// ChanInv is an invariant on every value that travels through the channel stored in a struct field:
+// senders must establish it, receivers may assume it.
+type ChanInv struct {
+	PkgPath string
+	Field   string // Type.field
+	Var     string
+	E       Expr
+	Text    string
+	Where   string
+}
+
 type ContractSet struct {
+	ChanInvs map[string]*ChanInv
 	Ghosts  map[string]*GhostField
 	Funcs   map[string]*Contract
 	Specs   map[string]*SpecFunc // by name (package-local names are global here; duplicates rejected)
@@ -98,7 +110,7 @@ type ContractSet struct {
 }
 
 func NewContractSet() *ContractSet {
-	return &ContractSet{Funcs: map[string]*Contract{}, Specs: map[string]*SpecFunc{}, Ghosts: map[string]*GhostField{}}
+	return &ContractSet{Funcs: map[string]*Contract{}, Specs: map[string]*SpecFunc{}, Ghosts: map[string]*GhostField{}, ChanInvs: map[string]*ChanInv{}}
 }
 
 var reSpecLine = regexp.MustCompile(`^\s*//\s?@ ?(.*)$`)
@@ -266,6 +278,21 @@ func (cs *ContractSet) ParseContractFile(path, pkgPath string, trusted bool) err
 			lastSpec = sf
 			specBody = &strings.Builder{}
 			specBody.WriteString(bodyTxt)
+		case head == "chaninv":
+			if err := flushAll(); err != nil {
+				return err
+			}
+			cur = nil
+			parts := strings.SplitN(rest, "::", 2)
+			hd := strings.Fields(parts[0])
+			if len(parts) != 2 || len(hd) != 2 {
+				return fmt.Errorf("%s: chaninv Type.field v :: expr expected", where)
+			}
+			e, err := ParseExpr(parts[1])
+			if err != nil {
+				return fmt.Errorf("%s: %v", where, err)
+			}
+			cs.ChanInvs[pkgPath+"."+hd[0]] = &ChanInv{PkgPath: pkgPath, Field: hd[0], Var: hd[1], E: e, Text: strings.TrimSpace(parts[1]), Where: where}
 		case head == "ghostfield":
 			if err := flushAll(); err != nil {
 				return err
